@@ -129,7 +129,7 @@ type probeShape struct {
 
 func buildProbe(c *client, ps probeShape, xid uint32) []byte {
 	b := make([]byte, 240)
-	b[0], b[1], b[2] = 1, 1, 6
+	b[0], b[1], b[2] = 1, 1, byte(len(c.mac))
 	binary.BigEndian.PutUint32(b[4:], xid)
 	if ps.bcastFlag {
 		b[10] = 0x80
@@ -332,13 +332,17 @@ func TestFastPathAgreesWithUserspace(t *testing.T) {
 			scripts = append(scripts, sc)
 		}
 	}
-	total := histories + len(scripts)*len(pools)
+	// the scripted matrix runs three times: 6-, 7- and 16-octet client hardware addresses
+	total := histories + 3*len(scripts)*len(pools)
 	for h := 0; h < total; h++ {
 		rng := run.SubRand("hist", h)
 		pc := pools[h%len(pools)]
 		var script []forced
+		extraHW := 0
 		if h >= histories {
-			script = scripts[(h-histories)/len(pools)]
+			si := (h - histories) / len(pools)
+			script = scripts[si%len(scripts)]
+			extraHW = []int{0, 1, 10}[si/len(scripts)]
 		}
 		synctest.Test(t, func(t *testing.T) {
 			// fresh control plane over cleared kernel maps
@@ -375,6 +379,15 @@ func TestFastPathAgreesWithUserspace(t *testing.T) {
 			clients := make([]*client, nClients)
 			for i := range clients {
 				c := &client{mac: net.HardwareAddr{0x02, byte(h), byte(rng.IntN(256)), byte(rng.IntN(256)), byte(rng.IntN(256)), byte(i + 1)}}
+				// hardware addresses longer than 6 octets (hlen 7..16) are valid BOOTP; the cache keys on the first six
+				nx := extraHW
+				if script == nil && rng.IntN(4) == 0 {
+					nx = []int{1, 2, 10}[rng.IntN(3)]
+				}
+				for ; nx > 0; nx-- {
+					c.mac = append(c.mac, byte(rng.IntN(256)))
+				}
+				run.Count(fmt.Sprintf("clients_hlen_%d", len(c.mac)), 1)
 				if rng.IntN(2) == 0 || script != nil {
 					c.relay = net.IPv4(10, 250, 0, byte(1+i))
 					if rng.IntN(4) != 0 || script != nil {
